@@ -103,7 +103,17 @@ def run_history(level, ctx_engine, start, boots, events, report_ctx="same"):
             w.bad_reply = ev[1] if ev[0] == "request-bad-reply" else None
             n = len(w.agent.log)
             try:
-                W.run(w.client.get(RA.OID(OID)))
+                # every kind of confirmed-class request has to keep working, not only GET: the
+                # operation changes from request to request (the model is indifferent to it)
+                kind = len(results) % 4
+                if kind == 0:
+                    W.run(w.client.get(RA.OID(OID)))
+                elif kind == 1:
+                    W.run(w.client.getnext(RA.OID(OID[:-2])))
+                elif kind == 2:
+                    W.run(w.client.bulkget([], [RA.OID(OID[:-2])], 1))
+                else:
+                    W.run(w.client.multiget([RA.OID(OID), RA.OID(OID)]))
                 res = ["ok"]
             except Exception as exc:  # noqa: BLE001
                 res = ["error", RA.canon_exc(exc)]
